@@ -52,4 +52,18 @@ PROPS = {
         suites=[dict(driver="lib", suite="seeker")],
         assumptions=["within one attempt the transport is the only reader of the body (violated by the real transport after an early error reply: known finding)"],
     ),
+    "C14": dict(
+        technique="Lean 4 theorems on a hand model of bannerResponseWriter over the regenerated predicates (goextract T2) and on ShimBody's splice; differential runs of the real banner.Proxy and ShimBody against the model plus independent oracles",
+        level_text="Proof for all requests, statuses, header maps, handler write sequences: outside the exact predicate (GET, Accept contains text/html, 200, no attachment disposition, HTML content type) the banner writer is the identity on status, headers and every body write; already-framed requests keep the body; otherwise exactly the frame page with the caching/framing headers. Proof for all bodies and read segmentations that the shim script is inserted once immediately after the first <head> of the whole body, or not at all, and never for non-HTML types. Predicates are regenerated from banner.go on every run.",
+        level_note=STD_NOTE + "Modelled, not verified: text/template rendering of the frame page (opaque page; the URL embedding is checked by the oracle), ServeMux routing, the writer's flag logic and ShimBody (hand models compared with the real code on every run).",
+        suites=[dict(driver="lib", suite="banner"), dict(driver="lib", suite="splice")],
+        assumptions=["the first Read of the backend body returns at most 1024 bytes into ShimBody's buffer (it is given a 1024-byte buffer)"],
+    ),
+    "C09": dict(
+        technique="Lean 4 theorems on the regenerated header-edit slice of forwardRequest and the regenerated stripWSHeader (goextract T2) over a header-multimap algebra; differential run of the real forwardRequest; oracle runs through the real handler chain and a real websocket-shim open",
+        level_text="Proof for every client header map, every asserted identity and all four flag combinations: with user-ID forwarding the identity field holds exactly the asserted value; with credential stripping no Authorization value remains, also in the header handed to the websocket dial; all other fields untouched. The theorems are about definitions regenerated from agent.go / connection.go on every run, so Set->Add, a dropped Del or a changed key breaks a proof.",
+        level_note=STD_NOTE + "Modelled, not verified: Go's HTTP parser folds all spellings of a field name onto the canonical key (validated by the differential run); the handler chain below forwardRequest (sessions, shim mux, ReverseProxy) is exercised end to end, not modelled: it is assumed not to touch these two fields.",
+        suites=[dict(driver="agent", suite="identity", env={"VERIF_DRIVER": "1"})],
+        assumptions=["http.ReadRequest canonicalises header field names", "ReverseProxy forwards X-Inverting-Proxy-User-Id and drops nothing but hop-by-hop fields (observed end to end)"],
+    ),
 }
